@@ -66,7 +66,7 @@ def trR (b : Bool) : String := if b then "tr=1" else "tr=0"
 
 def flowR (l : IPv6) : String :=
   match l.networkFlow with
-  | .ok f => s!"flow={f.typ}:{bytesR f.src}:{bytesR f.dst}"
+  | .ok f => s!"flow={f.typ}:{bytesR f.srcBytes}:{bytesR f.dstBytes}"
   | .err _ => "flow=err"
   | .panic _ => "flow=panic"
 
